@@ -457,3 +457,62 @@ class C03Progress(Base):
         d = dict(self.n)
         d['max_ready_latency_seen'] = self.max_latency
         return d
+
+
+def snap_extras(schd) -> dict:
+    """Scheduler-level state that must survive a restart (C19)."""
+    pool = schd.pool
+    bc = {}
+    try:
+        import copy
+        bc = copy.deepcopy(schd.broadcast_mgr.broadcasts)
+    except Exception:
+        pass
+    return {
+        'hold_point': str(pool.hold_point) if pool.hold_point else None,
+        'tasks_to_hold': sorted(f'{p}/{n}' for n, p in pool.tasks_to_hold),
+        'stop_point': (str(schd.config.stop_point)
+                       if schd.config.stop_point else None),
+        'pool_stop_point': str(pool.stop_point) if pool.stop_point else None,
+        'stop_task': pool.stop_task_id,
+        'flow_counter': schd.flow_mgr.counter,
+        'flows_known': sorted(schd.flow_mgr.flows),
+        'broadcasts': bc,
+        'paused': bool(schd.is_paused),
+    }
+
+
+class RestartSnap(Base):
+    """Records pool + scheduler state right after start-up and at the end of
+    the phase, for cross-incarnation comparison (C19, C06, C08, C43...)."""
+    NAME = 'rsnap'
+
+    def __init__(self, case, phase):
+        super().__init__(case, phase)
+        self.after_start_snap = None
+        self.end_snap = None
+        self.settled_snap = None
+
+    def after_start(self, drv, schd):
+        from vlib.e1.driver import snap_pool
+        self.after_start_snap = {'pool': snap_pool(schd.pool),
+                                 'extras': snap_extras(schd)}
+
+    def after_iter(self, drv, pool_snap):
+        # 'settled' = first iteration end at which the restart poll (and
+        # any other start-up command) has been answered and processed
+        if self.settled_snap is None and drv.bus.it >= 2 and not \
+                drv.schd.proc_pool.is_not_done():
+            self.settled_snap = {'pool': pool_snap, 'it': drv.bus.it}
+
+    def on_phase_end(self, drv):
+        from vlib.e1.driver import snap_pool
+        schd = drv.schd
+        if schd is None or not hasattr(schd, 'pool'):
+            return
+        self.end_snap = {'pool': snap_pool(schd.pool),
+                         'extras': snap_extras(schd)}
+
+    def summary(self, drv):
+        return {'after_start': self.after_start_snap, 'end': self.end_snap,
+                'settled': self.settled_snap}
